@@ -1273,12 +1273,12 @@ def roundtrip_check(ctx, I, e, where="generated"):
     ctx.count("roundtrip:checked")
     if st != "ok":
         ctx.violation("print-parse:" + s, "printed form %r of %r does not parse (%s)" % (s, e, st),
-                      {"kind": "roundtrip", "repr": repr(e), "printed": s, "where": where})
+                      {"kind": "roundtrip", "expr": ser_expr(E, e), "printed": s, "where": where})
         return
     same = same_expr(E, e, e2)
     if not same:
         ctx.violation("print-parse:" + s, "printed form %r of %r parses to the different expression %r" % (s, e, e2),
-                      {"kind": "roundtrip", "repr": repr(e), "printed": s, "reparsed": repr(e2), "where": where})
+                      {"kind": "roundtrip", "expr": ser_expr(E, e), "printed": s, "reparsed": str(ser_expr(E, e2)), "where": where})
 
 
 def same_expr(E, a, b):
@@ -1801,7 +1801,8 @@ def rules_stream(ctx, I, n):
     for c in conds:
         hctx.add_condition(c)
     for k in range(n):
-        kind = rng.choice(["lin", "lin", "lin", "lin-sum", "lin-indef", "split", "split", "parts", "parts", "subst", "subst", "subst-inv"])
+        kind = rng.choice(["lin", "lin", "lin", "lin-sum", "lin-indef", "split", "split", "parts", "parts", "subst", "subst", "subst-inv",
+                           "exchange"])
         lo, hi, c, (qlo, qhi, qc) = gen_bounds(I, rng)
         before = after = None
         rule = None
@@ -1836,6 +1837,14 @@ def rules_stream(ctx, I, n):
                     dg = R.deriv("x", g, hctx)
                     before = E.Integral("x", lo, hi, f.subst("u", g) * dg)
                     rule = R.Substitution("u", g)
+                elif kind == "exchange":
+                    f = P(rng.choice(["x ^ a", "exp(a * x)", "sin(a * x)", "cos(a * x) * x", "log(x + a)", "1 / (x + a)", "atan(a * x)",
+                                      "x ^ 2 * exp(-(a * x))", "sqrt(x + a ^ 2)"]))
+                    if rng.random() < 0.5:
+                        before = E.Integral("x", lo, hi, E.Deriv("a", f))
+                    else:
+                        before = E.Deriv("a", E.Integral("x", lo, hi, f))
+                    rule = R.DerivIntExchange()
                 else:
                     g = P(rng.choice(["2 * u", "u ^ 2", "sin(u)", "exp(u)", "u + 1", "tan(u)", "1 / u"]))
                     before = E.Integral("x", lo, hi, gen_integrand(I, rng, 1))
@@ -2182,6 +2191,8 @@ def mk_rule(I, params):
     n = params.get("name")
     if n == "Linearity":
         return R.Linearity()
+    if n == "DerivIntExchange":
+        return R.DerivIntExchange()
     if n == "SplitRegion":
         return R.SplitRegion(P(params["c"]))
     if n == "IntegrationByParts":
@@ -2275,6 +2286,9 @@ FINDINGS = [
      "what": "normalize dropped the coefficient under an even root of a negative-coefficient monomial: sqrt(-2*x) -> sqrt(-x)"},
     {"status": "fixed", "key": "normalize-value:atan(tan(x))", "commit": "fixes/C19-7.patch",
      "what": "normalize rewrote atan(tan(x)) to x without a branch condition"},
+    {"status": "fixed", "key": "rule-value:DerivIntExchange:INT x:[0,1]. D a. sin(a * x):exchange derivative and integral",
+     "commit": "fixes/C19-8.patch",
+     "what": "DerivIntExchange on INT x:[a,b]. D t. f swapped the bounds: D t. INT x:[b,a]. f (value negated)"},
     {"status": "known", "key": "normalize-idempotent:second-pass-changes-form-only",
      "what": "normalize is not idempotent: a second pass reorders factors, distributes a rational coefficient or simplifies constants "
              "further (e.g. (x - y) / 5 -> 1/5 * (x - y) -> 1/5 * x - 1/5 * y); the value is unchanged (checked on every instance)"},
